@@ -54,8 +54,11 @@ def flat_outcomes(facts, key, summ, depth=0):
                     x["conds"].add(("valid_type", a[3]))
             elif a[0] in ("all", "any") and is_text(a[1]):
                 cs = boolsum.charset(boolsum.pred_formula(facts, summ, a[2]), facts)
+                kind, pos = a[0], a[3]
+                if kind == "any":  # any(P) == !all(!P)
+                    kind, cs, pos = "all", boolsum.universe() & ~cs, not pos
                 for x in alts:
-                    x["conds"].add((a[0], cs, a[3]))
+                    x["conds"].add((kind, cs, pos))
             elif a[0] == "callres" and a[1] in facts.bodies and len(a[2]) == 1 and is_text(a[2][0]):
                 want = "ok" if a[3] == "Ok?" else "err"
                 sub = [s for s in flat_outcomes(facts, a[1], summ, depth + 1) if (s["result"][0] == "ok") == (want == "ok")]
@@ -79,7 +82,7 @@ def flat_outcomes(facts, key, summ, depth=0):
                         x["transform"] = "ascii_lower"
                 elif p.endswith("DerefMut>::deref_mut") or p == "std::ops::DerefMut::deref_mut":
                     pass
-                elif p in ("std::iter::Iterator::all", "std::iter::Iterator::any") and tgt[0] == "var":
+                elif (p in ("std::iter::Iterator::all", "std::iter::Iterator::any") or p.startswith("<std::str::Bytes<'_> as std::iter::Iterator>::a")) and tgt[0] == "var":
                     pass
                 elif p in facts.bodies and tgt[0] == "arg" and tgt[1] == 1:
                     pass  # handled through the callres atom
@@ -103,6 +106,14 @@ def flat_outcomes(facts, key, summ, depth=0):
                     for x in alts:
                         x["parts"] = True
         r = o["ret"]
+        if r[0] == "tail" and r[1][0] == "call" and r[1][1] in facts.bodies and len(r[1][2]) == 1 and is_text(models._value(r[1][2][0])):
+            # `helper(self)` as the tail expression: this path's outcome is whatever the helper's is
+            sub = flat_outcomes(facts, r[1][1], summ, depth + 1)
+            for x in alts:
+                for s in sub:
+                    y = {"conds": set(x["conds"]) | s["conds"], "transform": s["transform"] if s["transform"] != "id" else x["transform"], "unknown": x["unknown"] + s["unknown"], "parts": x["parts"] or s["parts"], "variant": x["variant"], "result": s["result"], "path": o["path"] + ("tail",) + tuple(s["path"])}
+                    res.append(y)
+            continue
         for x in alts:
             if r[0] == "ok":
                 x["result"] = ("ok",)
@@ -132,6 +143,17 @@ def sibling_obligations(ctx, facts, rule="SIBLING"):
             raise AnchorError("no finish in impl PurlShape for %s" % st)
         site = fn_site(facts, k)
         outs = flat_outcomes(facts, k, summ)
+        if st.startswith("std::borrow::Cow<") and any(o["variant"] is None for o in outs):
+            # a path that returns before the variant is looked at (a validity test hoisted above the match) is a path of
+            # both variants
+            exp = []
+            for o in outs:
+                if o["variant"] is None:
+                    for v in ("Borrowed", "Owned"):
+                        exp.append(dict(o, variant=v))
+                else:
+                    exp.append(o)
+            outs = exp
         variants = set(o["variant"] for o in outs)
         for o in outs:
             tag = "%s%s path %s" % (st, "::" + o["variant"] if o["variant"] else "", "-".join(str(b) for b in o["path"][:6]))
